@@ -96,15 +96,15 @@ theorem c18_history_partial (g : Genesis) (hw : g.wf = true) (bs : List Block) (
 
 /-- **C18, along whole histories with removals**: from every well-formed genesis, after InitChain and after every block
     of a quiet history in the wider sense (`QuietHistory2`): every validator record is either live — the power query
-    answers `tokens / 10^6`, exactly CometBFT's power for its key — or unbonding after a removal — the query answers 0 and
-    CometBFT holds no entry under its key; and CometBFT holds no key that is not a live validator's -/
+    answers `tokens / 10^6`, exactly CometBFT's power for its key — or unbonding after a removal, or jailed by x/slashing
+    or x/evidence — the query answers 0 and CometBFT holds no entry under its key; and CometBFT holds no key that is not a live validator's -/
 theorem c18_history_removals_partial (g : Genesis) (hw : g.wf = true) (bs : List Block) (hq : QuietHistory2 g bs) :
     ∃ first steps, run genEnv g bs = some (first, steps, RunEnd.done) ∧
       ∀ st ∈ first :: steps,
         (∀ v ∈ st.app.vals,
           (Active v ∧ st.app.queryPower (some v.op) = some ((powerOf v.tokens : Nat) : Int) ∧
             alookup v.key st.comet = some ((powerOf v.tokens : Nat) : Int)) ∨
-          (Unb v ∧ st.app.queryPower (some v.op) = some 0 ∧ alookup v.key st.comet = none)) ∧
+          ((Unb v ∨ Jl v) ∧ st.app.queryPower (some v.op) = some 0 ∧ alookup v.key st.comet = none)) ∧
         (∀ k p, alookup k st.comet = some p → ∃ v ∈ st.app.vals, v.key = k ∧ Active v) := by
   obtain ⟨first, steps, h1, _, _, hg, h5⟩ := quiet_history2 g hw bs hq
   refine ⟨first, steps, h1, ?_⟩
